@@ -37,6 +37,10 @@ MUTS = {
 }
 # several edits at once: (name, [(file, old, new), ...])
 MULTI = {
+ "E1-policy-groups-by-raw-domain": [
+    ("src/spox/_schemas.py", '    opset_req = {(k if k != "ai.onnx" else "", v) for k, v in opset_req}\n', ''),
+    ("src/spox/_schemas.py", "return {domain: max(v for _, v in group) for domain, group in grouping}", "return {(domain if domain != 'ai.onnx' else ''): max(v for _, v in group) for domain, group in grouping}"),
+ ],
  "H1-function-body-req-moved-to-update-metadata": [
     ("src/spox/_function.py", "        return node_opset_req | self.func_graph._get_build_result().opset_req", "        return node_opset_req"),
     ("src/spox/_function.py", "        super().update_metadata(opset_req, initializers, functions)\n        functions.append(self)", "        super().update_metadata(opset_req, initializers, functions)\n        opset_req.update(self.func_graph._get_build_result().opset_req)\n        functions.append(self)"),
